@@ -114,7 +114,19 @@ pub fn random_fault(rng: &mut Rng) -> Fault {
         let t = rng.pick(&tpls);
         (t.0, t.1.clone(), t.2)
     };
-    match rng.below(22) {
+    match rng.below(23) {
+        22 => {
+            // a Content-Type that is not text at all cannot name the endpoint's media type
+            let ct: &[u8] = *rng.pick(&[&b"\xff\xfe"[..], b"application/json\xff", b"text/pl\xe4in", b"application/x-www-form-urlencoded\xc3\x28"]);
+            let body = br#"{"s":"x","u":1,"i":-1,"f":1.5,"b":true,"e":"red","v":[],"m":{},"nested":{"a":"q","n":3},"uid":0}"#;
+            let mut b = b"POST /json HTTP/1.1\r\nhost: a\r\ncontent-type: ".to_vec();
+            b.extend_from_slice(ct);
+            b.extend_from_slice(format!("\r\ncontent-length: {}\r\n\r\n", body.len()).as_bytes());
+            b.extend_from_slice(body);
+            let mut f = fault("non-text-content-type", b);
+            f.malformed = true;
+            f
+        }
         0 => {
             let n = 1 + rng.usize(2000);
             fault("random-bytes", rng.bytes(n))
@@ -438,7 +450,9 @@ pub fn run(seed: u64, w: &Work) -> Report {
         let panics = log.count_kind("H_PANIC");
         rep.count("deliberate_handler_panics", panics as u64);
         rep.count("handler_entries", log.count_kind("H_ENTER") as u64);
-        let _ = srv.close();
+        if let Some(Err(e)) = srv.close() {
+            rep.violate("C18:server-task-died", json!({"mode": mode_tag, "close_result": e}));
+        }
     }
     rep
 }
